@@ -25,26 +25,26 @@ func systematicPlans() [][]planEntry {
 	for _, tpl := range histTemplates {
 		base := make([]planEntry, len(tpl))
 		for i := range tpl {
-			base[i] = planEntry{tpl[i], "valid"}
+			base[i] = planEntry{tpl[i], "valid", nil}
 		}
 		plans = append(plans, append([]planEntry{}, base...))
 		for pos := range tpl {
 			for _, fc := range classesFor(tpl[pos]) {
 				p := append([]planEntry{}, base...)
-				p[pos] = planEntry{tpl[pos], fc.name}
+				p[pos] = planEntry{tpl[pos], fc.name, nil}
 				plans = append(plans, p)
 			}
 			// a create inserted at a position where the state already exists
 			if pos > 0 {
 				p := append([]planEntry{}, base[:pos]...)
-				p = append(p, planEntry{'c', "wrong-state"})
+				p = append(p, planEntry{'c', "wrong-state", nil})
 				p = append(p, base[pos:]...)
 				plans = append(plans, p)
 			}
 		}
 		// histories that do not start with a create: everything is refused until one arrives
 		for _, first := range "urd" {
-			p := append([]planEntry{{byte(first), "wrong-state"}}, base...)
+			p := append([]planEntry{{byte(first), "wrong-state", nil}}, base...)
 			plans = append(plans, p)
 		}
 	}
@@ -69,7 +69,7 @@ func randomPlan(r *fw.Rand) []planEntry {
 			cl := classesFor(t)
 			class = cl[r.Intn(len(cl))].name
 		}
-		p = append(p, planEntry{t, class})
+		p = append(p, planEntry{t, class, nil})
 	}
 	return p
 }
